@@ -38,7 +38,8 @@ theorem RevOk.touch {P : Prog} {s : Storage} {n : NodeId} {r : Rev} (h : RevOk P
     (hk0 : alookup s'.srcs k0 = none ∨ ∃ nd, alookup s'.srcs k0 = some nd ∧ nd.tu = s.epoch + 1)
     (hsame : ∀ k, k ≠ k0 → alookup s'.srcs k = alookup s.srcs k ∧ keyObs s'.srcs s'.maps k = keyObs s.srcs s.maps k)
     (hd : s'.derived = s.derived) : RevOk P s' n r := by
-  refine ⟨by rw [he]; exact Nat.le_succ_of_le h.tv_le, h.tu_tv, h.stamps, h.tu_stamp, ?_, ?_⟩
+  refine ⟨by rw [he]; exact Nat.le_succ_of_le h.tv_le, h.tu_tv, h.stamps, h.tu_stamp, ?_, ?_, ?_⟩
+  · intro ht; have := h.tv_le; omega
   · intro ht; have := h.tv_le; omega
   · obtain ⟨σx, mx, R, hb, hdf, hx⟩ := h.ghost
     refine ⟨σx, mx, R, hb, ?_, hx⟩
@@ -208,7 +209,17 @@ theorem TopInv.gc {P : Prog} {s : Storage} (h : TopInv P s) : TopInv P (gc s).1 
       obtain ⟨r0, hr0, hcl⟩ := hclosed n hnk (fun hm => by cases hm)
       rw [hns] at hr0; cases hr0
       obtain ⟨σx, mx, R, hb, hdf, hx⟩ := hok.ghost
-      refine ⟨hok.tv_le, hok.tu_tv, hok.stamps, hok.tu_stamp, hok.correct, σx, mx, R, hb, ?_, hx⟩
+      refine ⟨hok.tv_le, hok.tu_tv, hok.stamps, hok.tu_stamp, hok.correct, ?_, σx, mx, R, hb, ?_, hx⟩
+      · intro ht d hd
+        have hq := hok.quiet ht d hd
+        unfold DepQuiet at hq ⊢
+        cases hn' : d.node with
+        | source k => rw [hn'] at hq; exact hq
+        | absent k => rw [hn'] at hq; exact hq
+        | derived q =>
+          rw [hn'] at hq; simp only at hq ⊢
+          have hqk : q ∈ keep := hcl q (mem_depIds.2 ⟨d, hd, hn'⟩)
+          rw [alookup_filter_of_mem _ _ _ hqk]; exact hq
       intro rd hrd
       have h0 := hdf rd hrd
       cases rd with
